@@ -194,7 +194,8 @@ def _strategies():
     keys = st.sampled_from(["author", "editor", "translator", "title", "Author", "note", "authors", "bookauthor"])
     mw = st.fixed_dictionaries(
         {
-            "fields": st.lists(st.tuples(keys, author_list()), min_size=1, max_size=5, unique_by=lambda kv: kv[0]).map(lambda l: [list(x) for x in l]),
+            "fields": st.one_of(st.lists(st.tuples(keys, author_list()), min_size=1, max_size=5, unique_by=lambda kv: kv[0]),
+                                st.lists(st.tuples(st.sampled_from(["author", "editor", "title"]), author_list()), min_size=2, max_size=4)).map(lambda l: [list(x) for x in l]),
             "name_fields": st.one_of(st.none(), st.lists(keys, max_size=3, unique=True)),
             "inplace": st.booleans(),
         }
